@@ -799,7 +799,7 @@ def gen_world(rng, layout: str, **opt: Any) -> dict:
                               'kv_nuls': rng.choice((1, 1, 2))})
     # visibility
     vis = opt.get('vis', rng.choice(('none', 'small', 'small', 'wide' if scale >= 3 else 'small')))
-    W['visibility'] = gen_vis(rng, vis)
+    W['visibility'] = gen_vis(rng, vis, opt.get('vis_clusters'))
     W['cubemaps'] = [{'origin': [rng.randint(-16000, 16000) for _ in range(3)], 'size': rng.randrange(0, 9)} for _ in range(cnt(0, 2))]
     W['overlays'] = [{'id': rng.randint(0, 99999), 'texinfo': rng.randrange(len(W['texinfo'])),
                       'faces': [rng.randint(0, 70000) for _ in range(rng.choice((0, 1, 3, 64)))], 'render_order': rng.randrange(4),
@@ -1101,7 +1101,8 @@ def gen_vis(rng, mode: str, clusters: Optional[int] = None) -> Optional[dict]:
     if mode == 'none':
         return None
     if clusters is None:
-        clusters = rng.choice((0, 1, 7, 8, 9, 20)) if mode == 'small' else rng.choice((2100, 2050))
+        # (wide: rows of 257 .. 775 bytes - a zero run of 255 bytes fills one run-length section, 510 and 765 fill two and three)
+        clusters = rng.choice((0, 1, 7, 8, 9, 20)) if mode == 'small' else rng.choice((2100, 2050, 4100, 6200))
     nbytes = (clusters + 7) // 8
 
     def row() -> bytes:
@@ -1116,7 +1117,7 @@ def gen_vis(rng, mode: str, clusters: Optional[int] = None) -> Optional[dict]:
             i = 0
             while i < nbytes:
                 if rng.random() < 0.5:
-                    i += rng.choice((1, 2, 3, 254, 255, 256, 257, 509, 510, 511, 512)) if nbytes > 300 else rng.randint(1, 4)
+                    i += rng.choice([1, 2, 3] + [x for x in (254, 255, 256, 257, 509, 510, 511, 512, 764, 765, 766) if x < nbytes]) if nbytes > 250 else rng.randint(1, 4)
                 else:
                     for _ in range(rng.randint(1, 3)):
                         if i < nbytes:
